@@ -69,7 +69,20 @@ func c19Script(r *rand.Rand) (string, map[string]interface{}) {
 	}
 	// hashes made by reflection from Go maps
 	b.WriteString("foreach k, v1 in M { t(k, v1); } t(string(M), keys(M)); foreach k, v1 in M.sub { t(k, v1); } ")
-	b.WriteString("return [h0, keys(h0), string(M), sort(keys(M))];")
+	switch r.Intn(12) {
+	case 0:
+		b.WriteString("return h0[[1, 2, h0]];") // fails: the error text is part of the outcome
+	case 1:
+		b.WriteString("kk = [\"a\", M, 3]; return {kk: 1};")
+	case 2:
+		b.WriteString("return M.sub[{\"x\": [h0]}];")
+	case 3:
+		b.WriteString("return fn0(1);")
+	case 4:
+		b.WriteString("return [1, [2, M]] + 1;")
+	default:
+		b.WriteString("return [h0, keys(h0), string(M), sort(keys(M))];")
+	}
 	m := map[string]interface{}{}
 	for i := 0; i < 3+r.Intn(12); i++ {
 		m[fmt.Sprintf("m%d", r.Intn(40))] = []interface{}{r.Intn(5), "s", 1.5, true}[r.Intn(4)]
@@ -95,7 +108,8 @@ func c19Transcript(script string, obj map[string]interface{}, vars map[string]mo
 		if o.Budget {
 			return "budget"
 		}
-		fmt.Fprintf(&b, "run%d %s trace=%s vars=%s\n", run, o.Desc(), strings.Join(o.Trace, "|"), evr.GlobalsString())
+		// a failing run's result is its error: the text must be reproducible too
+		fmt.Fprintf(&b, "run%d %s err=%q trace=%s vars=%s\n", run, o.Desc(), errText(o.Err), strings.Join(o.Trace, "|"), evr.GlobalsString())
 	}
 	return b.String()
 }
@@ -251,6 +265,15 @@ func c19Fixed(c *ev.Ctx) {
 		`return {"a":1,"a":2};`,
 		`return {"a":1,"a":2,"a":3,"b":1,"b":2}["a"];`,
 		`return string({"k": {"b": 1, "a": 2}, "j": [3, {"z": 1, "y": 2}]});`,
+		`return {}[[1, 2, 3]];`,
+		`k = [10, 20]; return {k: "x"};`,
+		`return {"a": 1}[{"b": [1, 2]}];`,
+		`return [1, [2, 3]] - {"a": [4]};`,
+		`foreach x in [[1], [2]] { y = x + 1; }`,
+		`function f(a) { return a; } return f([1, 2], {"k": [3]});`,
+		`return [[1, 2], {"a": 1}][0][{"x": 1}];`,
+		`return √[1, 2];`,
+		`return -{"a": [1]};`,
 	}
 	for i, s := range cases {
 		id := fmt.Sprintf("fixed/%d", i)
@@ -264,7 +287,8 @@ func c19Fixed(c *ev.Ctx) {
 				seen["prepare error"] = true
 				continue
 			}
-			seen[evr.ProgramDump()+evr.Exec(nil).Desc()] = true
+			o := evr.Exec(nil)
+			seen[evr.ProgramDump()+o.Desc()+" "+errText(o.Err)] = true
 		}
 		// optimised and unoptimised dumps may differ from each other: compare per setting
 		variants := 0
